@@ -317,7 +317,7 @@ func TestTableThresholds(t *testing.T) {
 
 type body struct {
 	name, prelude, body string
-	vmOnly bool
+	vmOnly              bool
 }
 
 var bodies = []body{
@@ -332,6 +332,13 @@ var bodies = []body{
 	{"call-early-return", "fn g(x: int) -> int { if x > 0 { return 1; } 0 }", "acc = g(i);", false},
 	{"call-return-from-loop", "fn g(x: int) -> int { for k in 0..5 { if k == 2 { return k; } } 0 }", "acc = g(i);", false},
 	{"call-return-from-try", "fn g(x: int) -> int { try { return x; } catch e { return 0; } }", "acc = g(i) % 7;", false},
+	// returns in front of / between / behind the locals of functions without parameters (the frame is reserved as a
+	// whole at the call, wherever the function leaves)
+	{"call-return-before-locals", "let gate = 1;\nfn g() -> int { if gate > 0 { return 1; } let a = 1; let b = 2; let c = [a, b]; a + b + c.len() }", "acc = g();", false},
+	{"call-return-between-locals", "let gate = 1;\nfn g() -> int { let a = 1; if gate > 0 { return a; } let b = 2; let c = 3; a + b + c }", "acc = g();", false},
+	{"call-null-return-before-locals", "let gate = 1;\nfn g() { if gate > 0 { return; } let a = 1; let b = a + 1; println(b); }", "g();", false},
+	{"call-return-before-locals-in-branches", "let gate = 1;\nfn g() -> int { match gate { 1 => { return 7; } _ => {} } let a = 1; for k in 0..2 { let q = k; a += q; } a }", "acc = g();", false},
+	{"lambda-return-before-locals", "", "let f = fn(x: int) -> int { if x > 0 { return 1; } let a = 1; let b = 2; a + b }; acc = f(i);", false},
 	{"match-with-default", "", "acc = match i % 3 { 0 => 1, 1 => 2, _ => 3 };", false},
 	{"match-stmt-no-default", "", "match i % 3 { 0 => { acc += 1; } 1 => { acc += 2; } }", false},
 	{"match-default-taken", "", "acc = match 99 { 0 => 1, _ => 2 };", false},
